@@ -50,7 +50,7 @@ pub fn op_bins_grid(cx: &mut Ctx, op: &Op) {
         }
         "grid_index" => {
             let axes = op.aux.clone();
-            if axes.is_empty() || op.idx.len() != axes.len() {
+            if op.idx.len() != axes.len() {
                 return; // arity mismatch is a different documented panic, not in this property
             }
             let lens: Vec<usize> = axes.iter().map(|e| n_bins(e)).collect();
